@@ -1,6 +1,6 @@
 (* Extraction of the C05 model for the correspondence check. ExtrOcamlBasic only. *)
 From V.lib Require Import Base.
-From V.c05 Require Import C05Model C05FragModel C05CodecModel C05SegModel C05SegCodecModel C05EmsgModel.
+From V.c05 Require Import C05Model C05FragModel C05CodecModel C05SegModel C05SegCodecModel C05EmsgModel C05EncHistModel.
 Require Import ExtrOcamlBasic.
 Separate Extraction
   nat sample fullsample trun tfhd trex
@@ -11,4 +11,5 @@ Separate Extraction
   rd32 enc_trun enc_trun_body trun_size enc_tfhd dec_trun dec_tfhd enc_moof
   xkind sref xbox tbox eitem dfr dseg fstate item_framed seg_stream seg_decode file_frags seg_read xsum seg_get_full wire_trafs
   next_box dec_moof dec_top T_MOOF enc_mdat enc_fragment
-  child lop lstate add_emsg add_emsg_pinned add_child pre_of post_of run_lops l_sync l_start.
+  child lop lstate add_emsg add_emsg_pinned add_child pre_of post_of run_lops lstep l_sync l_start
+  encode_state hop run_hops adds plain enc_guard.
